@@ -47,6 +47,11 @@ def _run_batch(module: str, scratch: Path, k: int, chunk: list[dict], heap: str,
             payload["event"] = chunk[payload["id"] - k]
             verdicts.append(payload)
     if not done:
+        dbg = os.environ.get("VERIF_TRACE_DEBUG")
+        if dbg:
+            with open(dbg, "w") as f:
+                f.write(p.stdout)
+            shutil.copy(tf, dbg + ".ndjson")
         raise MachineryError(
             f"{module} did not consume the whole batch (TLC output tail):\n{p.stdout[-3000:]}\n{p.stderr[-1500:]}"
         )
